@@ -15,12 +15,15 @@ Policies == IF ThirdActs = "DefaultOnly" THEN {NoStop} ELSE {<<a, b, c>> : a \in
 StartOpts == {[dl |-> d, stop |-> p, nb |-> FALSE, rin |-> 0, rout |-> 0, rerr |-> 0, input |-> -1,
                term |-> t, self |-> sf, prog |-> pr] :
                d \in DlOpts, p \in Policies, t \in 0..2, sf \in BOOLEAN, pr \in {"/bin/c"}}
+\* fork mode: the forked child destroys its copy of the handle and lives on; the parent's destroy must behave as ever
+ForkOpts == {[dl |-> d, stop |-> NoStop, nb |-> FALSE, rin |-> 0, rout |-> 0, rerr |-> 0, input |-> -1,
+              term |-> t, self |-> FALSE, prog |-> "/bin/c", fork |-> TRUE] : d \in DlOpts, t \in {0, 2}}
 FailOpts == {[dl |-> 0, stop |-> NoStop, nb |-> FALSE, rin |-> 0, rout |-> 0, rerr |-> 0, input |-> -1,
               term |-> 0, self |-> FALSE, prog |-> "/nonexistent"]}
 
 NextL ==
   \/ ncalls = 0 /\ New(1)
-  \/ ncalls = 1 /\ \E o \in StartOpts \cup FailOpts : Start(1, o)
+  \/ ncalls = 1 /\ \E o \in StartOpts \cup FailOpts \cup ForkOpts : Start(1, o)
   \/ ncalls = 2 /\ life[1] = "run" /\ (Wait(1, 0) \/ Terminate(1))
   \/ ncalls >= 1 /\ Destroy(1)
   \/ Destroy(0)
